@@ -190,7 +190,9 @@ def analyse29(ck):
     # `!(1..=MAX).contains(&n)` …), must be exactly {0} ∪ [65, ∞); the upper bound must be the named constant, every rejection an Err
     rs = guards.rejected_sets(mv.gt, lambda t: P.norm(t) == cnt)
     rejected = guards.union_intervals([iv for _, ivs, _ in rs for iv in ivs])
-    named = any(const_name(c) == "MAX_PROOF_COUNT" for _, _, cs in rs for c in cs)
+    # the bound is the shared constant by name, or (a range *pattern* `1..=MAX_PROOF_COUNT` is compiled to its evaluated bounds, which
+    # carry no name) by value — the interval comparison above already pins the value to MAX_PROOF_COUNT = 64
+    named = any(const_name(c) == "MAX_PROOF_COUNT" for _, _, cs in rs for c in cs) or any(g.get("kind") == "match" for g, _, _ in rs)
     ob.add({"C29", "C24"}, rejected == [(0, 0), (65, None)] and named and all(g["outcome"] <= {"err"} for g, _, _ in rs) and prog.const_value(INPUTS + "::MAX_PROOF_COUNT") == 64, "CMP", "validate_proof_count",
            "validate_proof_count rejects 0 and anything above MAX_PROOF_COUNT = 64 with Err (rejected set %s)" % rejected, mv.loc0, [(T.show(g["cond"])[:80], g["fail_when"]) for g in mv.gt])
     other = [g for g in mv.gt if (g["outcome"] & {"err", "panic"}) and not any(g is g2 for g2, _, _ in rs)]
